@@ -9,6 +9,11 @@ list) x driving mode (fresh decoder per syndrome; ONE decoder reused over the
 whole enumeration, ascending and descending) x syndromes (all 2^rank when
 rank <= 10, else the syndromes of all Pauli errors of weight <= w plus 0).
 
+The full product of all axes is enumerated on the smallest codes (profile FULL);
+on larger ones the axes are varied one at a time around a base point (STAR) or
+only the base point is run (BASE) -- every point always crossed with the whole
+syndrome set and the driving modes.  Thresholds per decoder and tier: BOUNDS.
+
 Oracle (mc/gf2.py, integer GF(2) algebra, shares no code with panqec):
 construction does not raise; decode returns a 0/1 vector of length 2n without
 raising; for Matching / UnionFind / BP-OSD the correction's syndrome equals
